@@ -278,3 +278,80 @@ def check_accept_bound(repo, chk):
                 chk.violation("A-bound", fn.key, "bound:%s:%s" % ("importance" if with_imp else "plain", bound), "%s: returned bound `%s` is not %s" % (label, ret_bound, "the given bound" if bound == "given-high" else "at least the maximum weight of the batch"), file=GEN, line=fn.lineno)
     if n_paths < 6:
         raise AnalysisError("A-bound: %d paths" % n_paths)
+
+
+def check_interp_sampling(repo, chk):
+    """interp_sample_f (the sibling of multi_sampling for the 1-d interpolated importance sampler) interpreted on
+    scripted batches: after thinning, the progress counter is the number of events actually kept"""
+    from ..sym import PyFunc
+    import numpy as np
+    LIN = "tf_pwa/generator/linear_interpolation.py"
+    fn = repo.fn_opt(LIN + "::interp_sample_f")
+    once = repo.fn_opt(LIN + "::interp_sample_once")
+    gt = repo.cls(GEN + "::GenTest")
+    if fn is None or once is None:
+        raise AnalysisError("anchor vanished: interp_sample_f / interp_sample_once")
+    chk.rule("M-interp", "interp_sample_f interpreted on four scripted batches (bounds 10, 20, 15, 30: raised twice): earlier events are thinned with keep <=> rnd > 1 - old/new, the sample is the thinned earlier events followed by the later batches, and after every batch the progress counter equals the number of events held (so the loop delivers the N events asked for)")
+    R = sp.Rational
+    pattern = [R(1, 10), R(1, 2), R(3, 5), R(9, 10), R(3, 10)]
+    maxima = [sp.Integer(10), sp.Integer(20), sp.Integer(15), sp.Integer(30)]
+    sizes = [6, 6, 6, 6]
+    counter = _Counter(sizes)
+    held = []   # (counter value, events held) after every batch
+    passed = []
+
+    def sampler(tr, a, k, n):
+        b = dict(zip(once.all_param_names(), a))
+        b.update(k)
+        kk = len(passed)
+        passed.append(b.get("max_rnd"))
+        new = maxima[kk] if passed[-1] is None else max(maxima[kk], sp.sympify(passed[-1]))
+        return np.array([sp.Symbol("e%d_%d" % (kk, j)) for j in range(int(b["N"]))], dtype=object), new
+
+    def first(tr, d, args, kwargs, n):
+        last = d.split(".")[-1]
+        if last in ("random", "uniform", "rand", "random_sample"):
+            shp = args[0] if args else kwargs.get("size", kwargs.get("shape"))
+            m = int(shp[0]) if isinstance(shp, (tuple, list)) else int(shp)
+            return np.array([pattern[j % len(pattern)] for j in range(m)], dtype=object)
+        return NotImplemented
+
+    def attribute(tr, obj, attr, n):
+        if isinstance(obj, _Counter):
+            if attr == "generate":
+                return PyFunc(lambda N: [sp.Integer(x) for x in obj.sizes])
+            if attr == "add_gen":
+                return PyFunc(lambda v: (obj.log.append(("add", int(v))), setattr(obj, "n_gen", obj.n_gen + int(v)))[0])
+            if attr == "set_gen":
+                return PyFunc(lambda v: (obj.log.append(("set", int(v))), setattr(obj, "n_gen", int(v)))[0])
+            if attr == "N_gen":
+                return sp.Integer(obj.n_gen)
+        raise Unmodelled("attribute %s of %r" % (attr, obj))
+
+    hooks = {once.key: sampler, gt.key: lambda tr_, a_, k_, n_: counter, "numeric_call_first": first, "attribute": attribute, "concrete_zeros": True, "stack_as_array": True}
+    tr = Translator(repo, hooks=hooks, max_depth=2)
+    try:
+        out = tr.call_fn(fn, ["F", "F_INTERP", sp.Integer(1000)])
+    except Unmodelled as e:
+        raise AnalysisError("interp_sample_f cannot be interpreted: %s" % e)
+    got = list(np.asarray(out[0], dtype=object).reshape(-1)) if isinstance(out, tuple) else None
+    if got is None:
+        raise AnalysisError("interp_sample_f no longer returns (sample, interpolation, bound)")
+    kept, old = [], None
+    for k, new in enumerate(maxima):
+        if old is None:
+            old = new
+        if new > old and kept:
+            kept = [t for j, t in enumerate(kept) if pattern[j % len(pattern)] > 1 - old / new]
+            old = new
+        elif new > old:
+            old = new
+        kept = kept + [sp.Symbol("e%d_%d" % (k, j)) for j in range(sizes[k])]
+    why = None
+    if got != kept:
+        why = "returns %d events %s..., thinning with keep <=> rnd > 1 - old/new gives %d events %s..." % (len(got), got[:6], len(kept), kept[:6])
+    elif counter.n_gen != len(kept):
+        why = "the progress counter ends at %d but %d events are held (counter log %s): the loop stops before the N events asked for are there" % (counter.n_gen, len(kept), counter.log)
+    chk.oblige("M-interp", "interp_sample_f on four scripted batches: %d events, counter %d" % (len(got), counter.n_gen), why is None)
+    if why:
+        chk.violation("M-interp", fn.key, "counter", "interp_sample_f on four scripted batches: %s" % why, file=LIN, line=fn.lineno)
